@@ -215,8 +215,24 @@ def gen_code(rnd, org, m128, isr_addr, buf):
         (2, lambda: [0x32] + w(buf + rnd.randrange(32))),
         (2, lambda: [rnd.randrange(256) for _ in range(rnd.randrange(1, 4))]),              # soup
     ]
+    def pport(base, fixed):
+        # the 128K decodes its ports partially: only the address lines in `fixed` matter (A15, A14?, A1); the others,
+        # including A0 (which also selects the ULA when low), are free
+        if rnd.random() < 0.5:
+            return base
+        return (base & fixed) | (rnd.randrange(65536) & ~fixed & 0xFFFF)
+
+    frag_w += [
+        (2, lambda: [0x3E, rnd.randrange(256), 0xD3, rnd.randrange(256) & 0xFE]),          # OUT (n),A to any even port (ULA; on a 128K maybe paging too)
+        (1, lambda: [0x01] + w(rnd.randrange(65536) & 0xFFFE) + [0xED, 0x41 + 8 * rnd.randrange(8)]),   # OUT (C),r to any even port
+    ]
     if m128:
+        pv = lambda: rnd.choice((0, 1, 3, 4, 6, 7, 0x10, 0x11, 0x13, 0x14, 0x16, 0x17, 0x18, 0x0F, 0x15))
         frag_w += [
+            (4, lambda: [0x01] + w(pport(0x7FFD, 0x8002)) + [0x3E, pv(), 0xED, 0x79]),      # paging through any port with A15 = A1 = 0
+            (3, lambda: [0x3E, pv(), 0xD3, rnd.randrange(256) & 0xFD]),                     # OUT (n),A: port = A*256+n, A1 = 0 (A15 = 0 as the value is small)
+            (2, lambda: [0x01] + w(pport(0xFFFD, 0xC002)) + [0x3E, rnd.randrange(18), 0xED, 0x79, 0x01] + w(pport(0xBFFD, 0xC002)) + [0xED, 0x59]),  # AY select / write through partially decoded ports
+
             (6, lambda: [0x01, 0xFD, 0x7F, 0x3E, rnd.choice((0, 1, 3, 4, 6, 7, 0x10, 0x11, 0x13, 0x14, 0x16, 0x17, 0x18, 0x0F, 0x30 if rnd.random() < 0.15 else 0x15)), 0xED, 0x79]),
             (2, lambda: [0x01, 0xFD, 0x7F, 0x3E, 0x20 | rnd.randrange(8) | rnd.choice((0, 0x10)), 0xED, 0x79, 0x3E, rnd.randrange(8) | rnd.choice((0, 0x10)), 0xED, 0x79]),  # lock, then try to page
             (4, lambda: [0x3A] + w(0xC000 + rnd.randrange(8)) + [0x3C, 0x32] + w(0xC000 + rnd.randrange(8))),   # touch the paged bank
@@ -780,7 +796,7 @@ def decode_written(path, ext):
 
 
 def probe_machine(rnd, idx):
-    """Directed class (VERIF_C20_PROBES=1 only): a version 1 .z80 recording whose PC is 0 at a frame boundary."""
+    """Directed class: a version 1 .z80 recording whose PC is 0 at a frame boundary (such a header cannot say PC = 0)."""
     m = gen_machine(rnd, idx)
     while m['machine'] != '48K':
         m = gen_machine(rnd, idx)
@@ -796,8 +812,10 @@ def one_recording(rseed, wd, idx, tier, cases, traces, stats):
     plan = gen_plan(rnd, 10 if tier == 'quick' else 14)
     conv = rnd.randrange(4)
     fmt = gen_fmt(rnd, m)
-    if os.environ.get('VERIF_C20_PROBES') == '1' and idx % 1000 == 0:
+    if idx % 8000 == 0:
+        # regression case (fixed finding stop:z80v1-pc0): two of the sixteen campaigns start with it
         m, plan, fmt = probe_machine(rnd, idx)
+        stats['probe:z80v1-pc0'] += 1
     inmode = rnd.choice(('const', 'port', 'few', 'random'))
     nsplit = rnd.choice((0, 0, 0, 1, 1, 2))
     splits = tuple(sorted(set(rnd.randrange(1, len(plan) + 1) for _ in range(nsplit))))
